@@ -197,8 +197,21 @@ def run_case(c):
             if "error" in f or f["dims"] != (3, len(tomos), 1) or not np.allclose(f["data"][0].astype(float), df.values.astype(float), atol=1e-3):
                 return {"what": "EM wedge list file does not hold (tomogram, min tilt, max tilt) per tomogram", "header": f.get("dims")}
             return None
-        dims = pd.DataFrame([[t] + per[t]["dim"] for t in tomos], columns=["tomo_id", "x", "y", "z"])
-        zs = pd.DataFrame([[t, per[t]["zs"]] for t in tomos])
+        # per-tomogram tables are keyed by tomogram number: row order independent of the tomogram list, possibly covering more tomograms
+        extra = [int(t) for t in range(60, 63)] if rng.random() < 0.4 else []
+        for t in extra:
+            per[t] = {"dim": [int(v) for v in rng.integers(100, 900, 3)], "zs": float(np.round(rng.uniform(-30, 30), 1))}
+        od, oz = [int(t) for t in rng.permutation(tomos + extra)], [int(t) for t in rng.permutation(tomos + extra)]
+        dims = pd.DataFrame([[t] + per[t]["dim"] for t in od], columns=["tomo_id", "x", "y", "z"])
+        zs = pd.DataFrame([[t, per[t]["zs"]] for t in oz])
+        zform = int(rng.integers(0, 3))
+        if zform == 1:
+            zs = zs.values.astype(float)
+        elif zform == 2:
+            zs = float(per[tomos[0]]["zs"])
+            for t in tomos:
+                per[t]["zs"] = zs
+        tomos = [int(t) for t in rng.permutation(tomos)] if rng.random() < 0.5 else tomos
         ctf_fmt = {"gctf": os.path.join(tmp, "ts_$xxx_ctf.star"), "ctffind4": os.path.join(tmp, "ts_$xxx_ctf.txt"), None: None}[c["ctf"]]
         out = os.path.join(tmp, "wl.star")
         df, e = call(wedgeutils.create_wedge_list_sg_batch, np.array(tomos), 1.35, os.path.join(tmp, "ts_$xxx.tlt"), tomo_dim=dims, z_shift=zs,
@@ -227,7 +240,10 @@ def run_case(c):
         em, e = call(wedgeutils.wedge_list_sg_to_em, out, os.path.join(tmp, "wl2.em"))
         if e is not None:
             return {"raised": f"wedge_list_sg_to_em {type(e).__name__}: {e}"}
-        for i, t in enumerate(tomos):
+        if sorted(int(v) for v in em["tomo_id"].values) != sorted(tomos) or len(em) != len(tomos):
+            return {"what": "sg -> em wedge list: one row per tomogram"}
+        for i in range(len(em)):  # rows keyed by tomogram number (groupby order), not by the order of the request
+            t = int(em["tomo_id"].iloc[i])
             if abs(em["min_tilt_angle"].iloc[i] - per[t]["tilts"].min()) > 1e-3 or abs(em["max_tilt_angle"].iloc[i] - per[t]["tilts"].max()) > 1e-3:
                 return {"what": "sg -> em wedge list: min / max tilt"}
         _, e = call(wedgeutils.create_wedge_list_sg, tomos[0], per[tomos[0]]["dim"], 1.35, per[tomos[0]]["tilts"], dose_file=np.zeros(len(per[tomos[0]]["tilts"]) + 1))
